@@ -3,11 +3,13 @@ package verifharness
 // C11 A restart changes nothing observable: original vs restored, then the same continuation.
 
 import (
+	"encoding/json"
 	"fmt"
 	"math/rand/v2"
 	"os"
 	"sort"
 	"strings"
+	"sync"
 	"testing"
 	"testing/synctest"
 	"time"
@@ -18,6 +20,230 @@ type c11Scenario struct {
 	History []Cmd `json:"history"`
 	Points  []int `json:"restart_after"` // restart after command index k (0-based)
 	Cont    int   `json:"continuation_len"`
+	// Flaps: targets that fail their health checks for a stretch of the history (the health of a
+	// target is transient, the target list of a service is configuration: a restart during such a
+	// stretch, or behind a snapshot written during it, must change nothing)
+	Flaps []c11Flap `json:"flaps,omitempty"`
+}
+
+// c11Flap: the named targets fail every probe (in the given way) from just before command Down
+// until just before command Up (Up == len(history): they stay down to the end).
+type c11Flap struct {
+	Targets []string `json:"targets"`
+	Mode    string   `json:"mode"` // 500 | refuse | close
+	Down    int      `json:"down_before"`
+	Up      int      `json:"up_before"`
+}
+
+// c11Settle: after a change of a target's health (and after a restore, which presumes every
+// target healthy until its first probe - the licence) both sides are given more than the longest
+// probe interval of this check (2s; failing and passing probes are answered at once) before
+// anything is compared.
+const c11Settle = 3 * time.Second
+
+// downAt: the targets that are failing their probes while command i runs (and until the next
+// change), with the way they fail.
+func (sc c11Scenario) downAt(i int) map[string]string {
+	out := map[string]string{}
+	for _, f := range sc.Flaps {
+		if f.Down <= i && i < f.Up {
+			for _, tn := range f.Targets {
+				if _, ok := out[tn]; !ok {
+					out[tn] = f.Mode
+				}
+			}
+		}
+	}
+	return out
+}
+
+func (sc c11Scenario) flapped() map[string]bool {
+	out := map[string]bool{}
+	for _, f := range sc.Flaps {
+		for _, tn := range f.Targets {
+			out[tn] = true
+		}
+	}
+	return out
+}
+
+// c11Health is the scripted health of the flapping targets of one world.
+type c11Health struct {
+	mu   sync.Mutex
+	down map[string]string
+}
+
+// set installs the health in force from command i on; reports whether anything changed.
+func (h *c11Health) set(down map[string]string) bool {
+	h.mu.Lock()
+	defer h.mu.Unlock()
+	changed := len(down) != len(h.down)
+	for k, v := range down {
+		if h.down[k] != v {
+			changed = true
+		}
+	}
+	h.down = down
+	return changed
+}
+
+func (h *c11Health) probe(name string) func(n int, at time.Duration) ProbeAct {
+	return func(n int, at time.Duration) ProbeAct {
+		h.mu.Lock()
+		mode, down := h.down[name]
+		h.mu.Unlock()
+		switch {
+		case !down:
+			return ProbeAct{Status: 200}
+		case mode == "refuse":
+			return ProbeAct{Refuse: true}
+		case mode == "close":
+			return ProbeAct{Close: true}
+		}
+		return ProbeAct{Status: 500}
+	}
+}
+
+// c11FlapGen: histories in which targets of multi-target slots (active and rollout) fail their
+// health checks for a while and recover, with restarts during and after the outage.
+func c11FlapGen(rng *rand.Rand, idx int, thorough bool) c11Scenario {
+	sc := c11Scenario{Idx: idx, Cont: 1 + rng.IntN(8)}
+	g := NewCmdGen(rng)
+	multi := func(svc, slot string) []string {
+		for {
+			if tg := g.targets(svc, slot); len(tg) > 1 {
+				return tg
+			}
+		}
+	}
+	d := g.Deploy("s0")
+	d.Targets = multi("s0", "a")
+	g.last["s0"], g.exists["s0"] = d, true
+	sc.History = append(sc.History, d)
+	if rng.IntN(2) == 0 {
+		g.rollout["s0"] = true
+		sc.History = append(sc.History,
+			Cmd{Kind: "rollout-deploy", Svc: "s0", Targets: multi("s0", "r"), DeployTO: 5 * time.Second, DrainTO: time.Second},
+			Cmd{Kind: "rollout-set", Svc: "s0", Pct: pick(rng, []int{100, 50, 0}), Allow: []string{"u1", "alpha"}})
+	}
+	n := len(sc.History) + 1 + rng.IntN(8)
+	for i := len(sc.History); i < n; i++ {
+		sc.History = append(sc.History, g.Next())
+	}
+	// the outages: of some (or all) targets of one earlier deploy / rollout deploy each
+	var cand []int
+	for p, c := range sc.History[:n-1] {
+		if len(c.Targets) > 0 {
+			cand = append(cand, p)
+		}
+	}
+	nf := 1 + rng.IntN(2)
+	if thorough {
+		nf = 1 + rng.IntN(3)
+	}
+	for f := 0; f < nf; f++ {
+		p := pick(rng, cand)
+		if f == 0 && rng.IntN(3) != 0 {
+			p = cand[0] // the multi-target deploy (often still in service when the restart comes)
+			if len(cand) > 1 && cand[1] == 1 && sc.History[1].Kind == "rollout-deploy" && rng.IntN(2) == 0 {
+				p = 1
+			}
+		}
+		var tg []string
+		for _, tn := range sc.History[p].Targets {
+			if rng.IntN(2) == 0 {
+				tg = append(tg, tn)
+			}
+		}
+		if len(tg) == 0 {
+			tg = []string{pick(rng, sc.History[p].Targets)}
+		}
+		fl := c11Flap{Targets: tg, Mode: pick(rng, []string{"500", "500", "refuse", "close"})}
+		fl.Down = p + 1 + rng.IntN(n-p-1)         // p+1 .. n-1
+		fl.Up = fl.Down + 1 + rng.IntN(n-fl.Down) // Down+1 .. n
+		sc.Flaps = append(sc.Flaps, fl)
+	}
+	if thorough {
+		for k := 0; k < n; k++ {
+			sc.Points = append(sc.Points, k)
+		}
+	} else {
+		f0 := sc.Flaps[0]
+		seen := map[int]bool{}
+		for _, k := range []int{n - 1, rng.IntN(n), f0.Down + rng.IntN(f0.Up-f0.Down)} {
+			if !seen[k] {
+				seen[k] = true
+				sc.Points = append(sc.Points, k)
+			}
+		}
+		sort.Ints(sc.Points)
+	}
+	return sc
+}
+
+// c11MaxSlot: the largest number of targets CmdGen puts in one slot.
+const c11MaxSlot = 3
+
+// c11Spread: which targets answer when the same request is repeated (one at a time, nothing else
+// in flight and no health change under way: the proxy takes the healthy targets of a slot strictly
+// in turn, so as many requests as the largest slot has targets reach every target that is in
+// rotation, wherever the turn stands). Keyed by host, path and rollout cookie.
+func c11Spread(w *World, p *Proxy, tag string) map[string]string {
+	out := map[string]string{}
+	n := 0
+	for _, h := range cfgReqHosts {
+		for _, path := range []string{"/", "/api/c", "/app/y/z"} {
+			for _, ck := range []string{"", "u1", "u3"} {
+				seen := map[string]bool{}
+				for i := 0; i < c11MaxSlot; i++ {
+					n++
+					r := Req{ID: fmt.Sprintf("%s-spread%d", tag, n), Host: h, Path: path}
+					if ck != "" {
+						r.Hdr = [][2]string{{"Cookie", "kamal-rollout=" + ck}}
+					}
+					resp := p.Do(r)
+					if resp.Target == "" {
+						// not routed to any target (no such service, redirect, paused, stopped, all down)
+						seen[fmt.Sprintf("status %d", resp.Status)] = true
+						break
+					}
+					seen[resp.Target] = true
+				}
+				var names []string
+				for tn := range seen {
+					names = append(names, tn)
+				}
+				sort.Strings(names)
+				out[fmt.Sprintf("spread %s%s cookie=%s", h, path, ck)] = strings.Join(names, ",")
+			}
+		}
+	}
+	return out
+}
+
+// c11InService: how many of the given targets the saved configuration names as active and as
+// rollout targets (coverage only).
+func c11InService(statefile string, names map[string]string) (active, rollout int) {
+	var v []struct {
+		Active  []string `json:"active_targets"`
+		Rollout []string `json:"rollout_targets"`
+	}
+	if json.Unmarshal([]byte(statefile), &v) != nil {
+		return 0, 0
+	}
+	for _, s := range v {
+		for _, tn := range s.Active {
+			if _, ok := names[tn]; ok {
+				active++
+			}
+		}
+		for _, tn := range s.Rollout {
+			if _, ok := names[tn]; ok {
+				rollout++
+			}
+		}
+	}
+	return
 }
 
 func c11Gen(rng *rand.Rand, idx int, thorough bool) c11Scenario {
@@ -112,6 +338,16 @@ func TestC11(t *testing.T) {
 		}
 		synctest.Test(t, func(t *testing.T) { c12Sim(t, run, sc) })
 	}
+	// ... and histories during which targets fail their health checks for a while: the outage of a
+	// target is not configuration, so a restart during it (or behind a snapshot written during it)
+	// restores the same targets, which are probed, listed and put back in rotation as on the original
+	for k := 0; k < run.N(40, 1000); k++ {
+		sc := c11FlapGen(run.Rand(n+3000+k), n+3000+k, run.Thorough())
+		if !run.Mine(n+3000+k, sc) {
+			continue
+		}
+		synctest.Test(t, func(t *testing.T) { c11Run(t, run, sc) })
+	}
 }
 
 // probeView: what the targets see of the health-check settings (path and cadence), per target,
@@ -158,7 +394,16 @@ func c11Run(t *testing.T, run *Run, sc c11Scenario) {
 	// ---- original: run the whole history, observing after every command that matters ----
 	wa := NewWorld(t, WorldOpt{TLSListener: true})
 	stages := make([]stage, len(sc.History))
+	flapping := len(sc.Flaps) > 0
+	flapped := sc.flapped()
+	ha := &c11Health{}
+	for tn := range flapped {
+		wa.AddTarget(tn, ha.probe(tn))
+	}
 	for i, c := range sc.History {
+		if flapping && ha.set(sc.downAt(i)) {
+			time.Sleep(c11Settle)
+		}
 		rec := c.Exec(wa, wa.Router)
 		stages[i].rec = *rec
 		if rec.Panic != "" {
@@ -169,6 +414,11 @@ func c11Run(t *testing.T, run *Run, sc c11Scenario) {
 		if want[i] {
 			t0 := wa.Now()
 			stages[i].obs = Observe(wa, wa.Primary(), fmt.Sprintf("a%d", i), true)
+			if flapping {
+				for k, v := range c11Spread(wa, wa.Primary(), fmt.Sprintf("a%d", i)) {
+					stages[i].obs[k] = v
+				}
+			}
 			time.Sleep(4 * time.Second)
 			for k, v := range probeView(wa, t0, wa.Now()) {
 				stages[i].obs[k] = v
@@ -194,10 +444,16 @@ func c11Run(t *testing.T, run *Run, sc c11Scenario) {
 			}
 		}
 		// the fake network must know every target named so far
+		hb := &c11Health{}
+		hb.set(sc.downAt(k)) // the outages in progress go on across the restart
 		for _, c := range sc.History {
 			for _, tn := range c.Targets {
 				if wb.Target(tn) == nil {
-					wb.AddTarget(tn, nil)
+					if flapped[tn] {
+						wb.AddTarget(tn, hb.probe(tn))
+					} else {
+						wb.AddTarget(tn, nil)
+					}
 				}
 			}
 		}
@@ -208,8 +464,17 @@ func c11Run(t *testing.T, run *Run, sc c11Scenario) {
 				fail("restore-failed", "RestoreLastSavedState after %d commands failed: %s %s", k+1, rec.Err, rec.Panic)
 				return false
 			}
+			if flapping {
+				// the licence: restored targets are presumed healthy until their first probe
+				time.Sleep(c11Settle)
+			}
 			t0 := wb.Now()
 			obs := Observe(wb, wb.Primary(), fmt.Sprintf("b%d", k), true)
+			if flapping {
+				for kk, v := range c11Spread(wb, wb.Primary(), fmt.Sprintf("b%d", k)) {
+					obs[kk] = v
+				}
+			}
 			time.Sleep(4 * time.Second)
 			for kk, v := range probeView(wb, t0, wb.Now()) {
 				obs[kk] = v
@@ -224,6 +489,9 @@ func c11Run(t *testing.T, run *Run, sc c11Scenario) {
 			last := k
 			for j := k + 1; j <= k+sc.Cont && j < len(sc.History); j++ {
 				c := sc.History[j]
+				if flapping && hb.set(sc.downAt(j)) {
+					time.Sleep(c11Settle)
+				}
 				rec := c.Exec(wb, wb.Router)
 				orig := stages[j].rec
 				if rec.Panic != "" {
@@ -240,6 +508,11 @@ func c11Run(t *testing.T, run *Run, sc c11Scenario) {
 			if last > k {
 				t0 := wb.Now()
 				obs2 := Observe(wb, wb.Primary(), fmt.Sprintf("c%d", k), true)
+				if flapping {
+					for kk, v := range c11Spread(wb, wb.Primary(), fmt.Sprintf("c%d", k)) {
+						obs2[kk] = v
+					}
+				}
 				time.Sleep(4 * time.Second)
 				for kk, v := range probeView(wb, t0, wb.Now()) {
 					obs2[kk] = v
@@ -264,6 +537,41 @@ func c11Run(t *testing.T, run *Run, sc c11Scenario) {
 			}
 		}
 		run.Class(fmt.Sprintf("after=%s|next=%s|services=%d", sc.History[k].Kind, nextKind(sc.History, k), strings.Count(stages[k].obs["statefile"], `"name":`)))
+		if flapping {
+			// what the outages amounted to at this restart point: targets in service that were failing
+			// their probes when the restored file was written / when the restart came, per slot, and
+			// whether one of them recovered in the continuation
+			atSave, atRestart := sc.downAt(k), sc.downAt(k)
+			for j := k; j >= 0; j-- {
+				if stages[j].rec.Err == "" {
+					atSave = sc.downAt(j)
+					break
+				}
+			}
+			sa, sr := c11InService(sf, atSave)
+			ra, rr := c11InService(sf, atRestart)
+			recovers := false
+			for j := k + 1; j <= k+sc.Cont && j < len(sc.History); j++ {
+				now := sc.downAt(j)
+				for tn := range atRestart {
+					if _, still := now[tn]; !still {
+						recovers = true
+					}
+				}
+			}
+			run.Count("restart_points_of_histories_with_target_outages", 1)
+			if sa+sr > 0 {
+				run.Count("restart_points_behind_a_snapshot_written_with_an_unhealthy_target_in_service", 1)
+			}
+			if ra+rr > 0 {
+				run.Count("restart_points_with_an_unhealthy_target_in_service", 1)
+				if recovers {
+					run.Count("restart_points_with_an_unhealthy_target_that_recovers_in_the_continuation", 1)
+				}
+			}
+			run.Class(fmt.Sprintf("outage|after=%s|saved_unhealthy=active:%d,rollout:%d|unhealthy_at_restart=active:%d,rollout:%d|recovers_after=%v",
+				sc.History[k].Kind, min(sa, 2), min(sr, 2), min(ra, 2), min(rr, 2), recovers))
+		}
 	}
 	run.Sample(map[string]any{"history_kinds": kinds(sc.History), "restart_after": sc.Points, "continuation": sc.Cont})
 }
